@@ -436,6 +436,8 @@ def rexpr(e, inputs=None):
         return e[1]
     if k == "bin":
         return "(%s %s %s)" % (rexpr(e[2], inputs), e[1], rexpr(e[3], inputs))
+    if k == "big":
+        return "B%d" % e[1]
     if k == "typeof":
         return "typeof %s" % rexpr(e[1], inputs)
     if k == "not":
@@ -577,6 +579,8 @@ def fmt_value(v):
         return str(v)
     if isinstance(v, tuple) and v[0] == "str":
         return v[1]
+    if isinstance(v, tuple) and v[0] == "big":
+        return str(v[1])
     if isinstance(v, tuple) and v[0] == "list":
         return "[" + ", ".join(fmt_value(x) for x in v[1]) + "]"
     if isinstance(v, tuple) and v[0] == "fn":
